@@ -277,13 +277,22 @@ def make_sum(summand_fn, lo, hi, obligations=None, rewriter=None, guard_simplifi
         kept = []
         for guard, coeff, atom in entries:
             if guard is not True:
-                r = guard_simplifier(guard)
-                if r is True:
-                    guard = True
-                elif r is False:
+                # conjunct by conjunct: drop what the range (and the caller's assumptions) entail, drop the entry if one is refuted
+                keep = []
+                dead = False
+                for cj in _conjuncts(guard):
+                    r = guard_simplifier(cj)
+                    if r is True:
+                        continue
+                    if r is False:
+                        dead = True
+                        break
+                    keep.append(cj)
+                if dead:
                     continue
+                guard = True if not keep else (z3.And(keep) if len(keep) > 1 else keep[0])
             kept.append((guard, coeff, atom))
-        dropped = len(kept) != len(entries) or any(a[0] is not b[0] for a, b in zip(kept, entries))
+        dropped = len(kept) != len(entries) or any(not (a[0] is b[0] or (a[0] is not True and b[0] is not True and a[0].eq(b[0]))) for a, b in zip(kept, entries))
         entries = kept
     else:
         dropped = False
